@@ -7,6 +7,7 @@
  *   R <spechex> <fltvalue>                       libc only: snprintf(spec, (long double)value)  (spec contains 'L')
  *   G <name> <fmthex>                            set global CONVFMT/OFMT through a hawk function (returns old value)
  *   V <arg>                                      number -> string through CONVFMT: returns (arg "")
+ *   K <kind> <p|-> <buflen> <prehex> <arg>       hawk_rtx_valtostr() with each output kind and its relatives (see below)
  *   T                                            internal state: rtx->format.tmp.len and rtx->formatmbs.tmp.len  -> T=<n> <n>
  * <arg>  : i:<dec> | f:<text>[:...] | s:<hex>[:...] | m:<hex>[:...] | c:<code> | y:<code> (byte char) | n:
  *          (anything after a second ':' is an annotation for the Lean driver and ignored here)
@@ -233,6 +234,87 @@ int main (int argc, char** argv)
 		{
 			/* internal state: sizes of the scratch buffers of the two formatters */
 			printf ("T=%lu %lu\n", (unsigned long)rtx->format.tmp.len, (unsigned long)rtx->formatmbs.tmp.len);
+			continue;
+		}
+		if (mode[0] == 'K')
+		{
+			/* K <kind> <p|-> <buflen> <prehex> <arg>: hawk_rtx_valtostr() and its relatives, called directly.
+			 * kind: cpl cplcpy cpldup strp strpcat (the five output kinds; p = HAWK_RTX_VALTOSTR_PRINT, i.e. OFMT),
+			 *       oodup bdup getoo getb (hawk_rtx_valtooocstrdup / valtobcstrdup / getvaloocstr / getvalbcstr)
+			 * buflen: cells of the caller's buffer for cpl/cplcpy (allocated exactly, so ASan sees an overflow);
+			 * prehex: what the string buffer holds before the call, for strp/strpcat.
+			 * -> K=<rc> e=<errnum> len=<out length> z=<1: NUL at ptr[len]> text=<units> */
+			char* kind = split_tab(&s), * pf = split_tab(&s), * bl = split_tab(&s), * pre = split_tab(&s), * at = split_tab(&s);
+			hawk_val_t* v;
+			hawk_rtx_valtostr_out_t out;
+			int rc = 0, type = -1, z = 0;
+			hawk_oow_t len = 0, buflen, i;
+			hawk_ooch_t* obuf = HAWK_NULL;
+			hawk_ooecs_t ecs;
+			int ecs_inited = 0;
+			if (!kind || !pf || !bl || !pre || !at) { puts("bad-line"); continue; }
+			v = mkarg(at);
+			if (!v) { puts("bad-arg"); continue; }
+			hawk_rtx_refupval (rtx, v);
+			buflen = (hawk_oow_t)strtoul(bl, NULL, 10);
+			hawk_rtx_seterrnum (rtx, HAWK_NULL, HAWK_ENOERR);
+			if (strcmp(kind, "cpl") == 0) type = HAWK_RTX_VALTOSTR_CPL;
+			else if (strcmp(kind, "cplcpy") == 0) type = HAWK_RTX_VALTOSTR_CPLCPY;
+			else if (strcmp(kind, "cpldup") == 0) type = HAWK_RTX_VALTOSTR_CPLDUP;
+			else if (strcmp(kind, "strp") == 0) type = HAWK_RTX_VALTOSTR_STRP;
+			else if (strcmp(kind, "strpcat") == 0) type = HAWK_RTX_VALTOSTR_STRPCAT;
+			if (type >= 0)
+			{
+				const hawk_ooch_t* rp = HAWK_NULL;
+				out.type = type | (pf[0] == 'p'? HAWK_RTX_VALTOSTR_PRINT: 0);
+				if (type == HAWK_RTX_VALTOSTR_CPL || type == HAWK_RTX_VALTOSTR_CPLCPY)
+				{
+					obuf = malloc((buflen? buflen: 1) * sizeof(*obuf));
+					for (i = 0; i < buflen; i++) obuf[i] = 0x7f;
+					out.u.cplcpy.ptr = obuf; out.u.cplcpy.len = buflen;
+				}
+				else if (type == HAWK_RTX_VALTOSTR_STRP || type == HAWK_RTX_VALTOSTR_STRPCAT)
+				{
+					size_t n = unhex(pre, ubuf, MAXU);
+					hawk_ooecs_init (&ecs, hawk_rtx_getgem(rtx), 16); ecs_inited = 1;
+					for (i = 0; i < n; i++) hawk_ooecs_ccat (&ecs, (hawk_ooch_t)ubuf[i]);
+					out.u.strp = &ecs;
+				}
+				rc = hawk_rtx_valtostr(rtx, v, &out);
+				if (type == HAWK_RTX_VALTOSTR_STRP || type == HAWK_RTX_VALTOSTR_STRPCAT)
+				{
+					rp = HAWK_OOECS_PTR(&ecs); len = HAWK_OOECS_LEN(&ecs); z = (rp[len] == 0);
+				}
+				else
+				{
+					len = out.u.cpl.len;
+					if (rc >= 0) { rp = out.u.cpl.ptr; z = (rp[len] == 0); }
+				}
+				printf ("K=%d e=%d len=%lu z=%d text=", rc, (rc <= -1)? (int)hawk_rtx_geterrnum(rtx): 0, (unsigned long)len, z);
+				if (rp && (rc >= 0 || ecs_inited)) put_units_oo (rp, len); else fputs("NA", stdout);
+				putchar ('\n');
+				if (type == HAWK_RTX_VALTOSTR_CPLDUP && rc >= 0) hawk_rtx_freemem (rtx, out.u.cpldup.ptr);
+				if (obuf) free (obuf);
+				if (ecs_inited) hawk_ooecs_fini (&ecs);
+			}
+			else if (strcmp(kind, "oodup") == 0 || strcmp(kind, "getoo") == 0)
+			{
+				hawk_ooch_t* p = (kind[0] == 'o')? hawk_rtx_valtooocstrdup(rtx, v, &len): hawk_rtx_getvaloocstr(rtx, v, &len);
+				printf ("K=%d e=%d len=%lu z=%d text=", p? 0: -1, p? 0: (int)hawk_rtx_geterrnum(rtx), (unsigned long)len, (p && p[len] == 0));
+				if (p) put_units_oo (p, len); else fputs("NA", stdout);
+				putchar ('\n');
+				if (p) { if (kind[0] == 'o') hawk_rtx_freemem (rtx, p); else hawk_rtx_freevaloocstr (rtx, v, p); }
+			}
+			else if (strcmp(kind, "bdup") == 0 || strcmp(kind, "getb") == 0)
+			{
+				hawk_bch_t* p = (kind[0] == 'b')? hawk_rtx_valtobcstrdup(rtx, v, &len): hawk_rtx_getvalbcstr(rtx, v, &len);
+				printf ("K=%d e=%d len=%lu z=%d text=", p? 0: -1, p? 0: (int)hawk_rtx_geterrnum(rtx), (unsigned long)len, (p && p[len] == 0));
+				if (p) put_units_b ((const unsigned char*)p, len); else fputs("NA", stdout);
+				putchar ('\n');
+				if (p) { if (kind[0] == 'b') hawk_rtx_freemem (rtx, p); else hawk_rtx_freevalbcstr (rtx, v, p); }
+			}
+			else puts ("bad-line");
+			hawk_rtx_refdownval (rtx, v);
 			continue;
 		}
 		if (mode[0] == 'G' || mode[0] == 'V')
